@@ -248,7 +248,7 @@ static size_t ref_trim_set(unsigned char c, char const *set, size_t n)
     return c == ' ' || (c >= '\t' && c <= '\r');
 }
 
-static uint64_t vf_ncases(int tier) { return tier ? 500000 : 6000; }
+static uint64_t vf_ncases(int tier) { return tier ? 1500000 : 6000; }
 
 static void vf_case(uint64_t c, vf_rng *r)
 {
